@@ -106,6 +106,9 @@ def dotted(node: ast.AST) -> Optional[str]:
     return None
 
 
+CURRENT: Optional['Repo'] = None
+
+
 class Repo:
     def __init__(self, root: Optional[str] = None,
                  subdirs: Iterable[str] = ('edb',),
@@ -143,6 +146,8 @@ class Repo:
             if was:
                 gc.enable()
         self._subclasses: Optional[Dict[str, Set[str]]] = None
+        global CURRENT
+        CURRENT = self
 
     def _undo_extractions(self) -> int:
         """Functions the baseline tree did not have, used only through
@@ -166,6 +171,109 @@ class Repo:
             n += alpha.undo_extractions(m.tree, m.name, set(funcs[rel]),
                                         others, base)
         return n
+
+    def new_function_names(self) -> Dict[str, List[str]]:
+        """simple name -> qualified names of functions the baseline tree did
+        not have and that are still there after the inlining pass (helpers
+        that could not be inlined, new API); names that some baseline
+        function also bears are left out (they identify nothing)"""
+        got = getattr(self, '_new_fn_names', None)
+        if got is not None:
+            return got
+        from . import alpha
+        base = alpha.baseline()
+        mods = base.get('__modules__', {})
+        funcs = base.get('__funcs__', {})
+        out: Dict[str, List[str]] = {}
+        if not funcs or os.environ.get('VERIF_NO_ALPHA'):
+            self._new_fn_names = out
+            return out
+        old_simple: Set[str] = set()
+        for qs in funcs.values():
+            for q in qs:
+                old_simple.add(q.rsplit('.', 1)[-1])
+        for m in self.modules.values():
+            rel = m.rel()
+            if not rel.startswith('edb/'):
+                continue
+            if rel in funcs and mods.get(rel) == hashlib.sha1(
+                    m.src.encode()).hexdigest():
+                continue
+            known = set(funcs.get(rel, ()))
+            for q in alpha.def_table(m.tree, m.name):
+                if q not in known:
+                    nm = q.rsplit('.', 1)[-1]
+                    if nm not in old_simple and not (
+                            nm.startswith('__') and nm.endswith('__')):
+                        out.setdefault(nm, []).append(q)
+        self._new_fn_names = out
+        return out
+
+    def delegates_to_new(self, loc: str) -> List[str]:
+        """new (non-baseline, not inlined) functions called from the
+        top-level function / method that contains file:line `loc`"""
+        new = self.new_function_names()
+        newq = getattr(self, '_new_fn_quals', None)
+        if newq is None:
+            from . import alpha
+            base = alpha.baseline()
+            funcs = base.get('__funcs__', {})
+            newq = set()
+            for mm in self.modules.values():
+                rel = mm.rel()
+                if getattr(mm, 'shared', False) and False:
+                    continue
+                known = funcs.get(rel)
+                if known is None:
+                    continue
+                known = set(known)
+                for q in alpha.def_table(mm.tree, mm.name):
+                    if q not in known:
+                        newq.add(q)
+            self._new_fn_quals = newq
+        if (not new and not newq) or ':' not in loc:
+            return []
+        path, _, ln = loc.partition(':')
+        try:
+            line = float(ln.split()[0].split(':')[0])
+        except ValueError:
+            return []
+        m = self.by_path.get(path)
+        if m is None:
+            return []
+        best = None
+        for f in self._funcs_of(m):
+            if f.parent is not None:
+                continue
+            n = f.node
+            lo = min([n.lineno] + [d.lineno for d in n.decorator_list])
+            hi = getattr(n, 'end_lineno', n.lineno) or n.lineno
+            if lo <= line <= hi and (best is None or
+                                     lo >= best.node.lineno):
+                best = f
+        if best is None:
+            return []
+        hits = []
+        for c in ast.walk(best.node):
+            if not isinstance(c, ast.Call):
+                continue
+            f = c.func
+            nm = f.id if isinstance(f, ast.Name) else (
+                f.attr if isinstance(f, ast.Attribute) else None)
+            if nm is None or nm == best.node.name or nm in hits:
+                continue
+            if nm in new:
+                hits.append(nm)
+            elif isinstance(f, ast.Name) and nm in m.functions and \
+                    m.functions[nm].qualname.split('@')[0] in newq:
+                hits.append(nm)
+            elif isinstance(f, ast.Attribute) and isinstance(
+                    f.value, ast.Name) and f.value.id in ('self', 'cls') \
+                    and best.cls is not None:
+                f2 = self.find_method(best.cls.qualname, nm)
+                if f2 is not None and f2.qualname.split('@')[0] in newq:
+                    hits.append(nm)
+        return hits
 
     def _alpha(self) -> int:
         """Rename locals back to the names the rules were written against
